@@ -406,6 +406,17 @@ func main() {
 		record("hand_latebind.bcb", "hand-assembled", x.desc, x.bytes(), true, "bind_2B_operand")
 	}
 	{
+		x := newFile("operandpos.bcl", "operand bytes that carry source positions of their own: a failing instruction reports the position stored for the last byte it has read")
+		a := &x.a
+		tT, empty, nosuch := x.k(bcfmt.Str("t")), x.k(bcfmt.Str("")), x.k(bcfmt.Str("nosuch"))
+		a.At(3).Op(DEFBLOCK, tT, empty)
+		a.At(14).Op(GETFIELD, nosuch)
+		a.Pos[len(a.Pos)-1] = 18 // the operand byte: line 2, column 8; the opcode byte: line 2, column 4
+		a.At(20).Op(POP).Op(ENDBLOCK).Op(RET)
+		x.f.Lfs = []uint64{10, 30}
+		record("hand_operandpos.bcb", "hand-assembled", x.desc, x.bytes(), true, "operand_positions")
+	}
+	{
 		x := newFile("nopos.bcl", "a file whose positions and line tables are empty (their counts are independent of the code length)")
 		a := &x.a
 		a.Op(CONST, x.k(bcfmt.Str("no positions"))).Op(PRINT).Op(ONE).Op(PRINT).Op(RET)
